@@ -194,7 +194,7 @@ pub fn run(ctx: &Ctx) -> Outcome {
     );
     hook::install();
     install_panic_capture();
-    let maps = ctx.q(160u64, 1200);
+    let maps = ctx.q(160u64, 40_000);
     let mut st = SeqStats::default();
     let mut exhaustive = true;
     'outer: for mi in 0..maps {
